@@ -9,12 +9,22 @@ from vf import common, tlc
 
 
 def main():
+  import faulthandler
+  import signal
+  faulthandler.register(signal.SIGUSR1, all_threads=True)   # kill -USR1 <pid> dumps every thread
   ap = argparse.ArgumentParser()
   ap.add_argument('pid')
   ap.add_argument('--tier', default=os.environ.get('VERIF_TIER', 'quick'),
                   choices=['quick', 'thorough'])
   ap.add_argument('--replay')
   a = ap.parse_args()
+
+  def _stalled(signum, frame):
+    faulthandler.dump_traceback(all_threads=True)
+    print('MACHINERY-FAILURE property=%s check exceeded its wall-clock budget' % a.pid, flush=True)
+    os._exit(2)
+  signal.signal(signal.SIGALRM, _stalled)
+  signal.alarm(2400 if a.tier == 'quick' else 6 * 3600)
   seed = int(os.environ.get('VERIF_SEED', '0') or 0)
   sys.argv = sys.argv[:1]   # openhtf parses argv at import
   try:
